@@ -3,5 +3,6 @@ pub mod explore;
 pub mod gen;
 pub mod infra;
 pub mod rec;
+pub mod refexpr;
 pub mod refint;
 pub mod runner;
